@@ -549,4 +549,56 @@ theorem solve_upper (R : List (List ℝ)) (z x : List ℝ) (ill : Bool) (ht : Tr
       rw [← h.2]
       exact backSub_upper R z x' ht hz hd hb
 
+/-! ### the chain -/
+
+theorem lsq_consistent (n : ℕ) (rows : List (List ℝ)) (b z x : List ℝ)
+    (hrows : rows ≠ []) (hb : b.length = rows.length) (hz : z.length = n)
+    (hcons : ∀ i, i < rows.length →
+      ∑ j ∈ Finset.range n, z.getD j 0 * (rows.getD i []).getD j 0 = b.getD i 0)
+    (h : lsq n rows b = (KSt.ok, x)) : x = z := by
+  have hm : 0 < rows.length := List.length_pos_iff.mpr hrows
+  set m := rows.length with hmdef
+  unfold lsq at h
+  cases hq : qr (columns n rows) with
+  | none => rw [hq] at h; simp at h
+  | some QR =>
+    obtain ⟨Q, R⟩ := QR
+    rw [hq] at h
+    dsimp only at h
+    have hlen : ∀ a ∈ columns n rows, a.length = m := by
+      intro a ha
+      simp only [columns, List.mem_map] at ha
+      obtain ⟨j, _, rfl⟩ := ha
+      exact column_length rows j
+    have hpair : List.Forall₂ (Pair m []) (columns n rows) (columns n rows) := by
+      rw [List.forall₂_same]
+      intro a ha
+      exact ⟨hlen a ha, by simp, fun _ _ => rfl⟩
+    obtain ⟨hQ, hQtA⟩ := qrLoop_spec m hm _ _ [] Q R hlen hpair hq
+    have hcl : (columns n rows).length = n := by simp [columns]
+    have hw : ∀ i, i < m → vec b i = lincomb (columns n rows) z i := by
+      intro i hi
+      have := lincomb_columns rows i n 0 z hz
+      rw [columns, List.range_eq_range', this]
+      simp only [Nat.zero_add]
+      rw [hcons i hi]
+      rfl
+    have hc : Q.map (fun qj => dotl qj b) = rhsOf R z := by
+      rw [← map_dot_eq_rhsOf m Q R _ z (vec b) hQtA (by rw [hcl, hz]) hw]
+      exact List.map_congr_left (fun q hq' => dotl_eq_ip q b m (hQ q hq').1 hb)
+    rw [hc] at h
+    cases hs : solveAb (augment 0 R (rhsOf R z)) with
+    | none => rw [hs] at h; simp at h
+    | some res =>
+      obtain ⟨ill, x'⟩ := res
+      rw [hs] at h
+      dsimp only at h
+      have hx' : x' = z := solve_upper R z x' ill (QtA_tri m Q R _ hQtA)
+        (by rw [(QtA_length m Q R _ hQtA).2, hcl, hz]) hs
+      cases ill with
+      | true => simp at h
+      | false =>
+        simp only [Bool.false_eq_true, if_false, Prod.mk.injEq, true_and] at h
+        rw [← h, hx']
+
 end Refine.KexactReal
